@@ -20,6 +20,35 @@ def allEq {α : Type} [BEq α] : List α → Bool
   | [] => true
   | x :: r => r.all (· == x)
 
+/-! ### N lines — snapshot transfer -/
+
+/-- C07 on a snapshot transfer: the node that installs another node's snapshot (FSM.Snapshot → Persist → FSM.Restore)
+    holds the same dataset. The source holds JSON-faithful values without deadlines, so the model of the transfer is
+    the identity on the dataset; a panic, an error or a hang of the transfer is a departure of its own. -/
+def nVerdict (toks : List String) : String :=
+  let p : P String := do
+    expect "N"
+    let seq ← tok
+    expect "C"
+    let argc ← pNat
+    let _cmd ← rep argc pBytes
+    expect "R"
+    let kind ← tok
+    let _payload ← pBytes
+    expect "S"
+    let src ← pState
+    expect "E"
+    let dst ← pState
+    let same := datasetOf src == datasetOf dst
+    let model := if kind == "ok" && same then "OK"
+                 else if kind != "ok" then s!"DIFF transfer model=ok impl={kind}"
+                 else "DIFF restored dataset differs from the source's"
+    let rep := if kind != "ok" then s!"rej:snapshot-transfer-{kind}" else if same then "adm" else "rej:replica-restored-from-snapshot-differs"
+    pure s!"{seq} {model} ## rep={rep} rcls=-"
+  match p.run toks with
+  | .ok (v, _) => v
+  | .error e => s!"{toks.getD 1 "?"} BAD {e}"
+
 /-! ### F lines -/
 
 structure FNode where
